@@ -172,7 +172,7 @@ def run_case(case):
                 continue
             finally:
                 if mon:
-                    left = mon.leftovers(0.5)
+                    left = mon.leftovers(5.0)
                     mon.cleanup()
                     mon.reset()
             flagged = False
